@@ -1662,7 +1662,11 @@ def sec_repeated(run):
             report(run, f"repeated:columns:{lab}", f"execute_circuit_repeated registers the samples of the final measurement gates by qubit id "
                    f"instead of by position (samples[:, meas.target_qubits]): {lab} gives {got[0][:3]}..., state vector gives {want[0][:3]}...",
                    {"kind": "repeated", "case": lab})
+    run.oblige(f"test:execute_circuit_repeated registers the final measurement results as the state vector dictates ({len(cases)} deterministic circuits)",
+               not crashes and not any(k.startswith("repeated:columns") for k in run.notes.get("reported_keys", [])), "test")
     if crashes:
+        report(run, "repeated:raises:" + crashes[0].split(":")[0], "execute_circuit_repeated raises on a valid Clifford circuit with a collapsing "
+               "measurement (refusal by exception): " + "; ".join(crashes), {"kind": "repeated"}, concrete=True)
         run.notes["repeated_execution_crash"] = crashes + ["(refusal by exception: same column indexing, IndexError when a qubit id exceeds the number of measured columns)"]
 
 
@@ -1743,16 +1747,35 @@ def sec_stim(run, rng):
 
 
 # ---------------------------------------------------------------- tableau -> circuit
+AG_CODE = {"H": 0, "S": 1, "SDG": 2, "X": 3, "Y": 4, "Z": 5, "CNOT": 6, "SWAP": 7}
+
+
+def agate_codes(circ):
+    """real circuit -> [(tag, q0, q1)] as ModelAG04.agate_code, or None if a gate outside the AG04 alphabet occurs"""
+    out = []
+    for g in circ.queue:
+        nm = type(g).__name__
+        if nm not in AG_CODE:
+            return None
+        qs = list(g.qubits)
+        out.append((AG_CODE[nm], int(qs[0]), int(qs[1]) if len(qs) > 1 else 0))
+    return out
+
+
 def sec_to_circuit(run, rng):
+    """tableau -> circuit.  AG04: the gate list of Clifford.to_circuit("AG04") equals the Coq model ModelAG04.ag04 gate
+    for gate (structural correspondence), the model's sweeps end in the identity tableau and the model circuit
+    re-simulates to the input tableau (all rows, exact, in Coq); BM20: re-simulation on the real backend (test)."""
     from qibo.backends import CliffordBackend
     from qibo.quantum_info.clifford import Clifford
     b = CliffordBackend(engine="numpy")
     a1, a2 = clifford_angles()
     bad = exact = 0
-    cnt = 40 if run.tier == "quick" else 300
+    cnt = 60 if run.tier == "quick" else 400
     done = 0
+    items, metas = [], []
     for j in range(cnt):
-        n = rng.randint(1, 5)
+        n = rng.randint(1, 5 if run.tier == "quick" else 7)
         descs = random_descs(rng, n, rng.randint(1, 6 * n), a1, a2)
         T, res = real_tableau(b, make_circuit(n, descs))
         psi = statevector(make_circuit(n, descs))
@@ -1775,7 +1798,36 @@ def sec_to_circuit(run, rng):
                 bad += 1
                 report(run, f"to_circuit:{alg}", f"the circuit produced by to_circuit({alg}) does not prepare the stabiliser state of the tableau "
                        f"(defect {d:.3g})", {"kind": "to_circuit", "n": n, "descs": descs, "alg": alg})
-    run.oblige(f"test:to_circuit(AG04/BM20) re-simulates to the same stabiliser state ({done} conversions, {exact} with identical tableau)", bad == 0, "test")
+            if alg == "AG04":
+                codes = agate_codes(circ)
+                tt = ctableau(T, n)
+                if codes is None:
+                    items.append((f"ag{j}", "false"))
+                else:
+                    lit = "(@nil (nat * nat * nat))" if not codes else "[" + "; ".join(f"({a}, {q0}, {q1})%nat" for a, q0, q1 in codes) + "]"
+                    items.append((f"ag{j}", f"code_eqb (map agate_code (ag04 {n} {tt})) {lit} "
+                                            f"&& tab_eqb (run_agates (ag04 {n} {tt}) (zero_state {n})) {tt} "
+                                            f"&& ((Nat.eqb {n} 1) || tab_eqb (fst (ag04_sweeps {n} {tt})) (zero_state {n}))"))
+                metas.append((n, descs))
+    run.oblige(f"test:to_circuit(AG04/BM20) re-simulates to the same stabiliser state on the real backend ({done} conversions, {exact} with identical tableau)", bad == 0, "test")
+    hdr = COQ_HEADER + "From QV Require Import C12.ModelAG04.\n" + \
+        "Fixpoint code_eqb (a b : list (nat * nat * nat)) : bool := match a, b with [] , [] => true | (x, y, z) :: a', (x', y', z') :: b' => " \
+        "Nat.eqb x x' && Nat.eqb y y' && Nat.eqb z z' && code_eqb a' b' | _, _ => false end.\n"
+    ok = True
+    for k0 in range(0, len(items), 100):
+        res_, out = run.coq_bools(f"AG04_{k0 // 100}.v", hdr, items[k0:k0 + 100], timeout=900)
+        if res_ is None:
+            ok = False
+            run.find("to_circuit:AG04:compile", "AG04 correspondence file does not compile", {"log": out[-800:]}, concrete=False)
+            continue
+        for (lab, _), (n, descs) in zip(items[k0:k0 + 100], metas[k0:k0 + 100]):
+            run.case(["ag04_model", n, descs])
+            if not res_[lab]:
+                ok = False
+                report(run, "to_circuit:AG04:model", "Clifford.to_circuit('AG04') differs from the Coq model (gate list), or the model circuit does not "
+                       "re-simulate to the input tableau", {"kind": "to_circuit", "n": n, "descs": descs, "alg": "AG04"}, concrete=False)
+    run.oblige(f"correspondence:to_circuit('AG04') gate list == ModelAG04.ag04, sweeps end in the identity tableau, model circuit re-simulates "
+               f"to the input tableau exactly ({len(items)} tableaux)", ok, "correspondence")
 
 
 # =====================================================================================
@@ -1838,13 +1890,9 @@ def sec_static(run):
     if not ok:
         run.find("static:assumptions", "Print Assumptions file for C12/Props does not compile", {}, concrete=False)
     run.not_proved += [
-        "Born support of a whole sampled bitstring: proved per measured qubit (determined_support: the other value has amplitude 0; "
-        "random_outcome_half: both values carry equal weight) under the premise that the scratch row is (-1)^o Z_q resp. that the tableau's "
-        "stabilisers stabilise the state; the post-measurement state (projection) and the fact that the selected product equals +-Z_q "
-        "(symplectic-basis completeness) are not formalised; covered by tests against the state vector",
         "uniqueness of the state stabilised by n independent commuting generators (standard; not formalised)",
         "non-vanishing of the state vector of a circuit (premise `nonzero` of determined_spec_stabilises)",
-        "tableau -> circuit (AG04 / BM20): test only",
+        "tableau -> circuit, BM20 (n <= 3): test only (AG04 is proved: ag04_ok, and its model is tied gate for gate)",
         "flag_sound / flag_complete_K / controlled_flag_ok / cr_flag_ok: REFUTED (open findings)"]
 
 
